@@ -1,5 +1,5 @@
 \* coverage + reachability (vacuity): every action taken; TLC must reach a fallback to a lighter pool, a real truncation, a failed pod
-CONSTANTS WeightVecs = {6, 12}  FeatDiag = TRUE  NPods = 2  PodArchs = {1, 2, 5, 6, 7}
+CONSTANTS WeightVecs = {6}  FeatDiag = TRUE  NPods = 2  PodArchs = {1, 2, 5, 6, 10}
 CONSTANTS Feats = {"plain", "taint", "limit"}
 CONSTANTS Catalogs = {2}  DaemonSets = {2}  MaxTypesSet = {2}  Policies = {"Strict"}  Weak = ""
 SPECIFICATION SpecCov
